@@ -351,7 +351,9 @@ func toValue(value interface{}) Value {
 		case reflect.Uint64:
 			return Value{kind: valueNumber, value: value.Uint()}
 		case reflect.Float32:
-			return Value{kind: valueNumber, value: float32(value.Float())}
+			// Widen like the direct float32 case above: the rest of the
+			// runtime only understands float64 floats.
+			return Value{kind: valueNumber, value: value.Float()}
 		case reflect.Float64:
 			return Value{kind: valueNumber, value: value.Float()}
 		case reflect.String:
